@@ -1,11 +1,12 @@
 """FPy primitives are the result of `@fpy_prim` decorators."""
 
 from collections.abc import Callable, Iterable
+from fractions import Fraction
 from typing import Any, Generic, ParamSpec, TypeVar
 
 from .ast import TypeAnn
-from .number import FP64, Context
-from .utils import has_keyword
+from .number import FP64, Context, Float
+from .utils import has_keyword, is_dyadic
 
 P = ParamSpec('P')
 R = TypeVar('R')
@@ -72,6 +73,13 @@ class Primitive(Generic[P, R]):
 
         # normalize numbers, but hand the body raw payloads, never `Foreign`
         args = tuple(unwrap_foreign(to_value(arg)) for arg in args)
+        # inside a program an unrounded literal (`ldexp(x, 3)`) is an exact
+        # rational; a primitive reads its numbers as `Float`, which holds
+        # every dyadic one exactly
+        args = tuple(
+            Float.from_rational(arg) if isinstance(arg, Fraction) and is_dyadic(arg) else arg
+            for arg in args
+        )
         if self.has_ctx_kwd:
             return self.func(*args, ctx=ctx)
         else:
